@@ -281,101 +281,169 @@ def _parts_repr(v):
 
 
 def check_number_to_str(repo, rep):
-    """Digit accounting of number_to_str: with X = |exponent| and L = number of mantissa digits, the text
-    ``number + '0'*Z`` denotes the value iff Z == X - L + 1, and ``'0.' + '0'*Z + number`` iff Z == X - 1."""
+    """Digit accounting of number_to_str, read off its function summary: with X = |exponent| and L = number of mantissa digits,
+    the text ``digits + '0'*Z`` denotes the value iff Z == X - L + 1, and ``'0.' + '0'*Z + digits`` iff Z == X - 1."""
+    import re as _re
+    from ..funsum import Summarizer
     f = repo.func("formula.py", "number_to_str")
-    blk = [n for n in f.body if isinstance(n, ast.If) and "'e' in" in U(n.test)]
-    if not blk:
+    vname = f.args.args[0].arg
+    nosp = lambda e: U(e).replace(" ", "")  # noqa: E731
+    # the text that is taken apart: ``repr(v)``, possibly trimmed (whatever the function tests for an 'e')
+    paths0 = Summarizer(consts=repo.consts).summarize(f)
+    VT = None
+    for p in paths0:
+        for c, _o in p.conds:
+            if isinstance(c, ast.Compare) and len(c.ops) == 1 and isinstance(c.ops[0], (ast.In, ast.NotIn)) and try_const(c.left) == "e" and f"repr({vname})" in nosp(c.comparators[0]):
+                VT = nosp(c.comparators[0])
+    if VT is None:
         raise AnalysisError("number_to_str: exponent branch not found")
-    blk = blk[0]
+    SPLIT = f"{VT}.split('e')"
+    EXP, MAN = SPLIT + "[1]", SPLIT + "[0]"
 
-    def lin_digits(e, sign):
-        """linear form (cX, cL, c0) over X = |int(exp)|, L = len(number); sign = +1/-1 for the sign of int(exp) on this path"""
-        if isinstance(e, ast.Constant) and isinstance(e.value, int):
-            return (0, 0, e.value)
-        if isinstance(e, ast.Call):
-            t = U(e).replace(" ", "")
-            if t == "abs(int(exp))":
-                return (1, 0, 0)
-            if t == "int(exp)":
-                return (sign, 0, 0)
-            if t == f"len({digits_var})":
-                return (0, 1, 0)
+    def removed_chars(d):
+        """the characters a digit-reducing expression over the mantissa text removes, or None"""
+        if isinstance(d, ast.Call) and U(d.func) == "re.sub" and len(d.args) == 3 and nosp(d.args[2]) == MAN and try_const(d.args[1]) == "":
+            pat = try_const(d.args[0])
+            if isinstance(pat, str):
+                try:
+                    rx = _re.compile(pat)
+                except _re.error:
+                    return None
+                return {c for c in "0123456789.,-+eE" if rx.fullmatch(c)}
             return None
-        if isinstance(e, ast.UnaryOp) and isinstance(e.op, ast.USub):
-            a = lin_digits(e.operand, sign)
-            return None if a is None else tuple(-x for x in a)
-        if isinstance(e, ast.BinOp) and isinstance(e.op, (ast.Add, ast.Sub)):
-            a, b = lin_digits(e.left, sign), lin_digits(e.right, sign)
-            if a is None or b is None:
-                return None
-            k = 1 if isinstance(e.op, ast.Add) else -1
-            return tuple(x + k * y for x, y in zip(a, b))
+        if isinstance(d, ast.Call) and isinstance(d.func, ast.Attribute) and d.func.attr == "translate" and len(d.args) == 1 and nosp(d.func.value) == MAN:
+            t = d.args[0]
+            if isinstance(t, ast.Name):
+                t = repo.module_assign("formula.py", t.id) or t
+            if isinstance(t, ast.Call) and U(t.func) == "str.maketrans" and len(t.args) == 3 and try_const(t.args[0]) == "" and try_const(t.args[1]) == "" \
+                    and isinstance(try_const(t.args[2]), str):
+                return set(try_const(t.args[2]))
+            return None
+        if isinstance(d, ast.Call) and isinstance(d.func, ast.Attribute) and d.func.attr == "replace" and len(d.args) == 2 and try_const(d.args[1]) == "" \
+                and isinstance(try_const(d.args[0]), str) and len(try_const(d.args[0])) == 1:
+            inner = set() if nosp(d.func.value) == MAN else removed_chars(d.func.value)
+            return None if inner is None else inner | {try_const(d.args[0])}
         return None
 
-    results = []
-    digits_var = "number"
-    for n in ast.walk(blk):
-        if isinstance(n, ast.Assign) and isinstance(n.targets[0], ast.Name) and isinstance(n.value, ast.Call) and U(n.value.func) == "re.sub":
-            digits_var = n.targets[0].id
+    def flat(e):
+        if isinstance(e, ast.Constant) and isinstance(e.value, str):
+            return [("s", e.value)] if e.value else []
+        if isinstance(e, ast.JoinedStr):
+            out = []
+            for v in e.values:
+                if isinstance(v, ast.Constant):
+                    out += flat(v)
+                elif isinstance(v, ast.FormattedValue) and v.format_spec is None and v.conversion == -1:
+                    out += flat(v.value) if isinstance(v.value, (ast.JoinedStr, ast.Constant)) else [("e", v.value)]
+                else:
+                    return None
+            return out
+        if isinstance(e, ast.BinOp) and isinstance(e.op, ast.Add):
+            a, b = flat(e.left), flat(e.right)
+            return None if a is None or b is None else a + b
+        return [("e", e)]
 
-    def walk(stmts, env, sign):
-        for i, st in enumerate(stmts):
-            if isinstance(st, ast.Assign) and isinstance(st.targets[0], ast.Name):
-                v = st.value
-                if isinstance(v, ast.BinOp) and isinstance(v.op, ast.Mult):
-                    for a, b in ((v.left, v.right), (v.right, v.left)):
-                        if isinstance(a, ast.Constant) and a.value == "0":
-                            env = dict(env)
-                            env[st.targets[0].id] = ("zeros", b)
-            elif isinstance(st, ast.If):
-                t = U(st.test).replace(" ", "")
-                if t in ("int(exp)>0", "int(exp)>=0", "int(exp)>=1"):
-                    walk(list(st.body) + list(stmts[i + 1:]), env, +1)
-                    walk(list(st.orelse) + list(stmts[i + 1:]), env, -1)
-                    return
-                if t in ("int(exp)<0", "int(exp)<=0"):
-                    walk(list(st.body) + list(stmts[i + 1:]), env, -1)
-                    walk(list(st.orelse) + list(stmts[i + 1:]), env, +1)
-                    return
-            elif isinstance(st, ast.Return) and isinstance(st.value, ast.JoinedStr):
-                parts = []
-                for v in st.value.values:
-                    if isinstance(v, ast.Constant):
-                        parts.append(v.value)
-                    else:
-                        nm = U(v.value)
-                        parts.append(env.get(nm, ("var", nm)))
-                results.append((sign, parts, st))
-                return
+    def sign_of(c, outcome):
+        """+1 / -1 when (c, outcome) fixes the sign of the exponent"""
+        if isinstance(c, ast.Compare) and len(c.ops) == 1 and nosp(c.left) == f"int({EXP})" and isinstance(try_const(c.comparators[0]), int):
+            k, op = try_const(c.comparators[0]), type(c.ops[0])
+            pos = {(ast.Gt, 0): 1, (ast.GtE, 0): 1, (ast.GtE, 1): 1, (ast.Lt, 0): -1, (ast.LtE, 0): -1, (ast.Lt, 1): -1}.get((op, k))
+            if pos is not None:
+                return pos if outcome else -pos
+        return 0
 
-    walk(blk.body, {}, 0)
-    for sign, parts, st in results:
+    cases = []
+    plain = False
+    for p in paths0:
+        has_e = None
+        sign = 0
+        for c, o in p.conds:
+            if isinstance(c, ast.Compare) and len(c.ops) == 1 and isinstance(c.ops[0], (ast.In, ast.NotIn)) and try_const(c.left) == "e" and nosp(c.comparators[0]) == VT:
+                has_e = isinstance(c.ops[0], ast.In) == bool(o)
+            sign = sign or sign_of(c, o)
+        if p.kind != "return" or has_e is None:
+            raise AnalysisError("number_to_str: exponent branch not found")
+        if not has_e:
+            plain = plain or nosp(p.ret) == VT
+            continue
+        pending = [(p.ret, sign)]
+        while pending:
+            e, sg = pending.pop()
+            if isinstance(e, ast.IfExp):
+                s1 = sign_of(e.test, True)
+                pending.append((e.body, sg or s1))
+                pending.append((e.orelse, sg or -s1))
+            else:
+                cases.append((sg, e, p.node))
+    if not plain:
+        raise AnalysisError("number_to_str: the plain repr branch not found")
+    if len(cases) < 2:
+        raise AnalysisError("number_to_str: both exponent branches not found")
+    digit_exprs = []
+    for sign, e, st in cases:
         if sign == 0:
             raise AnalysisError("number_to_str: return outside the sign branches")
-        zeros = [p for p in parts if isinstance(p, tuple) and p[0] == "zeros"]
-        shape = [p if isinstance(p, str) else p[0] if p[0] == "zeros" else p[1] for p in parts]
+        parts = flat(e) or []
+        shape, z, dg = [], None, None
+        for kind, v in parts:
+            if kind == "s":
+                shape.append(v)
+            elif isinstance(v, ast.BinOp) and isinstance(v.op, ast.Mult) and any(try_const(x) == "0" for x in (v.left, v.right)):
+                shape.append("zeros")
+                z = v.right if try_const(v.left) == "0" else v.left
+            elif removed_chars(v) is not None:
+                shape.append("digits")
+                dg = v
+                digit_exprs.append(v)
+            else:
+                shape.append(U(v)[:40])
+        dtxt = nosp(dg) if dg is not None else None
+
+        def lin_digits(x):
+            """(cX, cL, c0) over X = |int(exp)|, L = len(digits)"""
+            if isinstance(x, ast.Constant) and isinstance(x.value, int) and not isinstance(x.value, bool):
+                return (0, 0, x.value)
+            if isinstance(x, ast.Call):
+                t = nosp(x)
+                if t == f"abs(int({EXP}))":
+                    return (1, 0, 0)
+                if t == f"int({EXP})":
+                    return (sign, 0, 0)
+                if dtxt and t == f"len({dtxt})":
+                    return (0, 1, 0)
+                return None
+            if isinstance(x, ast.UnaryOp) and isinstance(x.op, ast.USub):
+                a = lin_digits(x.operand)
+                return None if a is None else tuple(-y for y in a)
+            if isinstance(x, ast.BinOp) and isinstance(x.op, (ast.Add, ast.Sub)):
+                a, b = lin_digits(x.left), lin_digits(x.right)
+                if a is None or b is None:
+                    return None
+                k = 1 if isinstance(x.op, ast.Add) else -1
+                return tuple(m + k * n for m, n in zip(a, b))
+            return None
+
         if sign > 0:
-            ok_shape = shape == [digits_var, "zeros"]
+            ok_shape = shape == ["digits", "zeros"]
             want = (1, -1, 1)
             what = "large numbers: digits then X - L + 1 zeros"
             key = "C08.R5@number_to_str:positive-exponent"
         else:
-            ok_shape = shape == ["0.", "zeros", digits_var]
+            ok_shape = shape == ["0.", "zeros", "digits"]
             want = (1, 0, -1)
             what = "small numbers: '0.' then X - 1 zeros then digits"
             key = "C08.R5@number_to_str:negative-exponent"
-        z = lin_digits(zeros[0][1], sign) if zeros else None
-        ok = ok_shape and z == want
+        zl = lin_digits(z) if z is not None else None
+        ok = ok_shape and zl == want
         detail = ""
         if not ok:
-            detail = (f"renders {shape} with zero count (X, L, const) = {z}; the text denotes the stored value only for {want} "
+            detail = (f"renders {shape} with zero count (X, L, const) = {zl}; the text denotes the stored value only for {want} "
                       f"(X = |exponent|, L = mantissa digits): e.g. " + ("5e+16 is printed as 5000000000000000" if sign > 0 else "1.234e-05 is printed with the wrong number of zeros"))
         rep.ob("C08.R5", st, f"number_to_str, {what}", ok, detail, key=key)
-    if len(results) < 2:
-        raise AnalysisError("number_to_str: both exponent branches not found")
-    ok = any(isinstance(n, ast.Call) and U(n.func) == "re.sub" and try_const(n.args[0]) in ("[,-.]", r"[.\-]", "[-.]", r"\D") for n in ast.walk(blk))
-    rep.ob("C08.R5", blk, "number_to_str: mantissa reduced to its digits", ok, "", key="C08.R5@number_to_str:digits")
+    rem = [removed_chars(d) for d in digit_exprs]
+    ok = bool(rem) and all(r is not None and "." in r and not (r & set("0123456789")) for r in rem)
+    rep.ob("C08.R5", f, "number_to_str: mantissa reduced to its digits", ok, "" if ok else f"characters removed from the mantissa text: {[sorted(r) if r is not None else None for r in rem]}",
+           key="C08.R5@number_to_str:digits")
 
 
 def _check_date_value(repo, rep, m, h, base_txt):
@@ -744,6 +812,9 @@ def run(repo, rep, tier):
 
 
 VARIANTS = [
+    T("number-to-str-translate-ifexp", "formula.py", '    if "e" in v_str:\n        number, exp = v_str.split("e")\n        number = re.sub(r"[,-.]", "", number)\n        zeroes = "0" * (abs(int(exp)) - 1)\n        if int(exp) > 0:\n            return f"{number}{zeroes}"\n        return f"0.{zeroes}{number}"\n    return v_str\n', '    if "e" not in v_str:\n        return v_str\n\n    mantissa, exp = v_str.split("e")\n    digits = mantissa.translate(str.maketrans("", "", \',-.\'))\n    exponent = int(exp)\n    zeroes = "0" * (abs(exponent) - 1)\n    return f"{digits}{zeroes}" if exponent > 0 else f"0.{zeroes}{digits}"\n'),
+    M("number-to-str-translate-keeps-point", "formula.py", '    if "e" in v_str:\n        number, exp = v_str.split("e")\n        number = re.sub(r"[,-.]", "", number)\n        zeroes = "0" * (abs(int(exp)) - 1)\n        if int(exp) > 0:\n            return f"{number}{zeroes}"\n        return f"0.{zeroes}{number}"\n    return v_str\n', '    if "e" not in v_str:\n        return v_str\n\n    mantissa, exp = v_str.split("e")\n    digits = mantissa.translate(str.maketrans("", "", \',-\'))\n    exponent = int(exp)\n    zeroes = "0" * (abs(exponent) - 1)\n    return f"{digits}{zeroes}" if exponent > 0 else f"0.{zeroes}{digits}"\n', "C08.R5"),
+    M("number-to-str-small-zero-count", "formula.py", '    if "e" in v_str:\n        number, exp = v_str.split("e")\n        number = re.sub(r"[,-.]", "", number)\n        zeroes = "0" * (abs(int(exp)) - 1)\n        if int(exp) > 0:\n            return f"{number}{zeroes}"\n        return f"0.{zeroes}{number}"\n    return v_str\n', '    if "e" not in v_str:\n        return v_str\n\n    mantissa, exp = v_str.split("e")\n    digits = mantissa.translate(str.maketrans("", "", \',-.\'))\n    exponent = int(exp)\n    zeroes = "0" * (abs(exponent))\n    return f"{digits}{zeroes}" if exponent > 0 else f"0.{zeroes}{digits}"\n', "C08.R5"),
     M("number-integer-marker-wrong", "formula.py", "if node.AST_number_node_decimal_high == 0x3040000000000000:", "if node.AST_number_node_decimal_high == 0x3040000000000001:", "C08.R5"),
     M("number-integer-branches-swapped", "formula.py", "if node.AST_number_node_decimal_high == 0x3040000000000000:", "if node.AST_number_node_decimal_high != 0x3040000000000000:", "C08.R5"),
     M("function-name-by-arity-index", "formula.py", "        node_index = node.AST_function_node_index", "        node_index = node.AST_function_node_numArgs", "C08.R4"),
